@@ -40,6 +40,17 @@ type crashDB struct {
 	armed  bool
 	budget int      // units still allowed while armed
 	log    []string // store name touched by each unit while armed
+	own    map[string]dbm.DB // non-nil: every IAVL store is mounted on a database of its own (kept across reopenings)
+}
+
+func (c *crashDB) ownFor(name string) dbm.DB {
+	if c.own == nil {
+		return nil
+	}
+	if c.own[name] == nil {
+		c.own[name] = dbm.NewMemDB()
+	}
+	return c.own[name]
 }
 
 type crashSignal struct{}
@@ -125,7 +136,7 @@ func newInst(db *crashDB, names []string, prune stypes.PruningOptions) (*inst, e
 	for _, n := range names {
 		k := stypes.NewKVStoreKey(n)
 		in.keys[n] = k
-		in.ms.MountStoreWithDB(k, stypes.StoreTypeIAVL, nil)
+		in.ms.MountStoreWithDB(k, stypes.StoreTypeIAVL, db.ownFor(n))
 	}
 	in.tkey = stypes.NewTransientStoreKey("tr")
 	in.ms.MountStoreWithDB(in.tkey, stypes.StoreTypeTransient, nil)
@@ -155,6 +166,16 @@ func (in *inst) contents() string {
 	}
 	it.Close()
 	return strings.Join(xs, ";") + fmt.Sprintf(" tr=%d", n)
+}
+
+// safely runs a load; a panic inside it is an error like any other (the history is then judged on what it reports)
+func safely(f func() error) (err error) {
+	defer func() {
+		if r := recover(); r != nil {
+			err = fmt.Errorf("panic: %v", r)
+		}
+	}()
+	return f()
 }
 
 func try(f func()) (crashed bool, other interface{}) {
@@ -208,29 +229,41 @@ func main() {
 func runHistory(r *rng.R, id int, wo, wi *bufio.Writer) {
 	ns := 1 + r.Intn(4)
 	names := []string{"acc", "main", "pos", "zgov"}[:ns]
+	// the policy as the numbers the harness chose (for the shipped options: the numbers their documentation states), never as
+	// read back through the accessors the stores themselves use
 	var prune stypes.PruningOptions
+	var kr, ke int64
 	switch r.Intn(8) {
 	case 0:
-		prune = stypes.PruneEverything
+		prune, kr, ke = stypes.PruneEverything, 0, 0
 	case 1:
-		prune = stypes.PruneNothing
+		prune, kr, ke = stypes.PruneNothing, 0, 1
 	case 2:
-		prune = stypes.PruneSyncable
+		prune, kr, ke = stypes.PruneSyncable, 100, 10000
 	case 3:
-		prune = stypes.NewPruningOptions(1, 0)
+		kr, ke = 1, 0
+		prune = stypes.NewPruningOptions(kr, ke)
 	case 4:
-		prune = stypes.NewPruningOptions(int64(r.Intn(4)), int64(r.Intn(4)))
+		kr, ke = int64(r.Intn(4)), int64(r.Intn(4))
+		prune = stypes.NewPruningOptions(kr, ke)
 	case 5:
-		prune = stypes.NewPruningOptions(2, 3)
+		kr, ke = 2, 3
+		prune = stypes.NewPruningOptions(kr, ke)
 	case 6:
-		prune = stypes.NewPruningOptions(0, 2)
+		kr, ke = 0, 2
+		prune = stypes.NewPruningOptions(kr, ke)
 	default:
-		prune = stypes.NewPruningOptions(int64(1+r.Intn(3)), int64(r.Intn(3)))
+		kr, ke = int64(1+r.Intn(3)), int64(r.Intn(3))
+		prune = stypes.NewPruningOptions(kr, ke)
 	}
-	fmt.Fprintf(wo, "H %d %d %d %s\n", id, prune.KeepRecent(), prune.KeepEvery(), strings.Join(names, ","))
-	stats[fmt.Sprintf("prune/%d,%d", prune.KeepRecent(), prune.KeepEvery())]++
+	fmt.Fprintf(wo, "H %d %d %d %s\n", id, kr, ke, strings.Join(names, ","))
+	stats[fmt.Sprintf("prune/%d,%d", kr, ke)]++
 	dbA := &crashDB{DB: dbm.NewMemDB()}
 	dbB := &crashDB{DB: dbm.NewMemDB()}
+	if r.Chance(1, 6) { // every store of instance A on its own database; the twin keeps them all in one
+		dbA.own = map[string]dbm.DB{}
+		stats["stores-on-their-own-databases"]++
+	}
 	A, _ := newInst(dbA, names, prune)
 	B, _ := newInst(dbB, names, prune)
 	if err := A.ms.LoadLatestVersion(); err != nil {
@@ -291,14 +324,17 @@ func runHistory(r *rng.R, id int, wo, wi *bufio.Writer) {
 				emit(fmt.Sprintf("S %s %s %s", w.store, hx(w.k), hx(w.v)), "ok")
 			}
 		case c < 10 && r.Chance(1, 6): // change the pruning policy of the loaded store
-			np := stypes.NewPruningOptions(int64(r.Intn(4)), int64(r.Intn(4)))
+			nkr, nke := int64(r.Intn(4)), int64(r.Intn(4))
+			np := stypes.NewPruningOptions(nkr, nke)
 			if r.Chance(1, 3) {
-				np = []stypes.PruningOptions{stypes.PruneEverything, stypes.PruneNothing, stypes.PruneSyncable}[r.Intn(3)]
+				j := r.Intn(3)
+				np = []stypes.PruningOptions{stypes.PruneEverything, stypes.PruneNothing, stypes.PruneSyncable}[j]
+				nkr, nke = []int64{0, 0, 100}[j], []int64{0, 1, 10000}[j]
 			}
 			A.ms.SetPruning(np)
 			B.ms.SetPruning(np)
 			A.prune, B.prune, prune = np, np, np
-			emit(fmt.Sprintf("P %d %d", np.KeepRecent(), np.KeepEvery()), "ok")
+			emit(fmt.Sprintf("P %d %d", nkr, nke), "ok")
 		case c < 10: // transient write
 			k, v := randKey(r), r.Bytes(2)
 			A.ms.GetKVStore(A.tkey).Set(k, v)
@@ -322,6 +358,9 @@ func runHistory(r *rng.R, id int, wo, wi *bufio.Writer) {
 			emit("C "+strings.Join(order, ","), fmt.Sprintf("ok ver=%d twin=%v info=%v %s", idA.Version, bytes.Equal(idA.Hash, idB.Hash),
 				bytes.Equal(A.ms.LastCommitID().Hash, idA.Hash), A.contents()))
 		case c < 16: // crash during commit
+			if dbA.own != nil { // (the crash points are counted on the shared database only)
+				continue
+			}
 			budget := r.Intn(2*ns + 2)
 			old := A.ms.LastCommitID().Version
 			dbA.armed, dbA.budget, dbA.log = true, budget, nil
@@ -387,7 +426,7 @@ func runHistory(r *rng.R, id int, wo, wi *bufio.Writer) {
 				stats["late-mount"]++
 			}
 			A2, _ := newInst(dbA, names, prune)
-			err := A2.ms.LoadLatestVersion()
+			err := safely(A2.ms.LoadLatestVersion)
 			B2, _ := newInst(dbB, names, prune)
 			_ = B2.ms.LoadLatestVersion()
 			if err != nil {
@@ -411,7 +450,7 @@ func runHistory(r *rng.R, id int, wo, wi *bufio.Writer) {
 			cur := A.ms.LastCommitID().Version
 			v := int64(r.Intn(int(cur) + 3))
 			S, _ := newInst(dbA, names, prune)
-			err := S.ms.LoadVersion(v)
+			err := safely(func() error { return S.ms.LoadVersion(v) })
 			if err != nil {
 				// a load that fails must leave a live store as it was: the same call on the running instances (v = 0 is a
 				// legitimate reset of a live store and is not tried)
